@@ -97,9 +97,13 @@ Fixpoint vv_loop (op : binop) (retBool : bool) (m : vmatch) (rhs lhs : list elem
       end
   end.
 
-(* None also for duplicate signatures on the right-hand side ("found duplicate series for the match group") *)
+Definition is_nil {A} (l : list A) : bool := match l with [] => true | _ => false end.
+
+(* upstream short-circuits when one side is empty ("nothing is going to match", before any duplicate check); otherwise
+   None also for duplicate signatures on the right-hand side ("found duplicate series for the match group") *)
 Definition vv_binop (op : binop) (retBool : bool) (m : vmatch) (lhs rhs : list elem) : option (list elem) :=
-  if nodup_sigs (map (fun e => sig m (fst e)) rhs) then vv_loop op retBool m rhs lhs [] else None.
+  if is_nil lhs || is_nil rhs then Some []
+  else if nodup_sigs (map (fun e => sig m (fst e)) rhs) then vv_loop op retBool m rhs lhs [] else None.
 
 (* ---------------------------------------------------------------------------------------------------- *)
 (* range queries: the operator walks the rows of the two matched series step by step                      *)
